@@ -273,7 +273,9 @@ Section Den.
       | TStr s => ok [DOut (VStr s 0 :: stk) env]
 
       | TFormat l =>
-        (* splices are resolved right to left; the leftmost varies fastest.
+        (* splices are resolved right to left; the leftmost varies fastest; they are
+           plain context: what a splice binds is seen by the splices to its left and
+           after the string.
            A pending result is a stack with the string built so far on top
            (position 0 until the final numbering). *)
         let fix fmt (parts : list tree) : dres :=
@@ -281,16 +283,16 @@ Section Den.
             | [] => ok [DOut (VStr [] 0 :: stk) env]
             | part :: rest =>
               bind_outs (fmt rest)
-                        (fun s1 _ =>
+                        (fun s1 e1 =>
                            match s1 with
                            | VStr suffix _ :: s1' =>
                              match part with
-                             | TStr lit => ok [DOut (VStr (lit ++ suffix) 0 :: s1') env]
+                             | TStr lit => ok [DOut (VStr (lit ++ suffix) 0 :: s1') e1]
                              | _ =>
-                               bind_outs (den f' part env s1')
-                                         (fun s2 _ =>
+                               bind_outs (den f' part e1 s1')
+                                         (fun s2 e2 =>
                                             match s2 with
-                                            | v :: s2' => ok [DOut (VStr (show (p_tc P) v ++ suffix) 0 :: s2') env]
+                                            | v :: s2' => ok [DOut (VStr (show (p_tc P) v ++ suffix) 0 :: s2') e2]
                                             | [] => abort
                                             end)
                              end
